@@ -4,6 +4,8 @@ import (
 	"strings"
 	"testing"
 
+	v1 "github.com/DataDog/extendeddaemonset/api/v1alpha1"
+
 	"verif/mc/h"
 	w "verif/mc/world"
 )
@@ -43,7 +45,14 @@ func TestC01(t *testing.T) {
 	// clean-up and the following rollout must leave that pod alone
 	s3u := corpusS3(n2, "1", "auto", 2, &w.Alpha{PodDev: []string{"unknown"}, Kubectl: []string{"canary-validate"}})
 	s3u.name = "S3-canary-unknown-pod-validated"
-	scs = append(scs, s1, s2, s3, s3u)
+	// a canary spread over a node label (nodeAntiAffinityKeys) on a cluster in which the only node of the second value is
+	// tainted: the balanced share of that value cannot be used and the selection has to fill the list up from the first
+	// value; a node may join, leave or be tainted meanwhile and the user may ask for one more canary node
+	s3z := corpusS3([]string{"n1:zone=a", "n2:zone=a", "n3:zone=b"}, "2", "auto", b, &w.Alpha{AddNodes: []string{"n9:zone=b"}, DelNodes: true, Taints: []string{"NoSchedule"}, SpecEdits: []string{"canary-replicas=3"}})
+	s3z.name = "S3-canary-2-anti-affinity-second-zone-tainted"
+	s3z.eds = append(s3z.eds, func(e *v1.ExtendedDaemonSet) { e.Spec.Strategy.Canary.NodeAntiAffinityKeys = []string{"zone"} })
+	s3z.first = []w.Event{evb("taint", "n3", "NoSchedule"), evb("setTemplate", edsKey, "B")}
+	scs = append(scs, s1, s2, s3, s3u, s3z)
 	for _, o := range scs {
 		o.mons = mons
 		setupRun = run
